@@ -83,6 +83,18 @@ def varRule (S : Sc α) (input : α) (msgs : List (Nat × α)) : α × List (Nat
   let llr := S.add input (sum S (msgs.map (·.2)))
   (llr, msgs.map (fun m => (m.1, S.sub llr m.2)))
 
+/-- the layered single-check update of the float arithmetics, as the property states it: the flooding check rule
+applied to the extrinsic values `vars[dest] − old message`, then `var := extrinsic + new message`
+(`rule` is one of `checkPhi`, `checkTanh c`, `checkApprox`, `checkAmin`; A-Min* emits the least reliable
+neighbour first, so new messages are looked up by destination); `none` = panic -/
+def layerBy (S : Sc α) (rule : List (Nat × α) → Option (List (Nat × α))) (msgs : List (Nat × α)) (vars : List α) :
+    Option (List (Nat × α) × List α) := do
+  let ext ← msgs.mapM (fun m => (vars[m.1]?).map (fun q => (m.1, S.sub q m.2)))
+  let emitted ← rule ext
+  let news ← ext.mapM (fun e => (emitted.find? (fun o => o.1 == e.1)).map (fun o => (e.1, o.2)))
+  let vars' := (ext.zip news).foldl (fun vs p => vs.set p.1.1 (S.add p.1.2 p.2.2)) vars
+  pure (news, vars')
+
 /-- exact box-plus in the tanh domain: `Π tanh(x_j / 2)` -/
 def tanhProd (S : Sc α) (xs : List α) : α := prod S (xs.map (fun x => S.tanh (S.mul (S.rat 1 2) x)))
 
